@@ -23,7 +23,7 @@ def closed_case(rng, tier):
 
 
 def run(ctx):
-    prop_files = [f for f in PROP_FILES if os.path.exists(os.path.join(vlib.COQ, f))]
+    prop_files = vlib.listed_props(PROP_FILES)
     vlib.build(ctx, prop_files, variants=("plain",))
     nviol = 0
     # (a) closed files are never modified by reading
